@@ -2,6 +2,8 @@ package logstore
 
 import (
 	"github.com/lni/vfs"
+	"io"
+	"log"
 
 	"github.com/lni/dragonboat/v4/config"
 	"github.com/lni/dragonboat/v4/internal/logdb"
@@ -70,6 +72,9 @@ var (
 )
 
 func init() {
+	// Pebble logs "background error: vfs: not supported" (MemFS has no disk
+	// usage) through the standard logger on every open
+	log.SetOutput(io.Discard)
 	for _, name := range []string{"tan", "logdb", "pebblekv", "config", "settings", "dragonboat", "fileutil", "utils"} {
 		logger.GetLogger(name).SetLevel(logger.ERROR)
 	}
